@@ -106,7 +106,7 @@ FlowCase(f, nsi, shs, sc) ==
     [id |-> ((f * 8 + nsi) * 2400 + StructCode(shs)) * 67 + ScriptCode(sc),
      fam |-> "flow", reqs |-> Flows[f],
      scens |-> << [name |-> "s1", weight |-> 1, items |-> ItemsOf(NameSeqs[nsi], shs)] >>,
-     rows |-> 3, idx |-> 7, shots |-> 2, script |-> sc]
+     gun |-> "http", tmpl |-> "text", special |-> FALSE, rows |-> 3, idx |-> 7, shots |-> 2, script |-> sc]
 
 \* initial states: every flow profile x name sequence x shapes x script (enumerated lazily by TLC)
 FlowInit(lvl) ==
@@ -127,7 +127,7 @@ WsCode(ws) == LET RECURSIVE C(_)
                   C(p) == IF p = 0 THEN 0 ELSE C(p - 1) * 6 + WCode(ws[p])
               IN C(Len(ws))
 RingCase(ws) == [id |-> 20000000 + WsCode(ws), fam |-> "ring", reqs |-> PlainReqs, scens |-> RingScens(ws),
-                 rows |-> 3, idx |-> 7, shots |-> 2 * RingLen(ws), script |-> Script("ok", 0)]
+                 gun |-> "http", tmpl |-> "text", special |-> FALSE, rows |-> 3, idx |-> 7, shots |-> 2 * RingLen(ws), script |-> Script("ok", 0)]
 RingInit == \E n \in 1..3 : \E ws \in [1..n -> Weights] : st = InitSt(RingCase(ws))
 
 \* a request listed by two scenarios: its preprocessor keeps the iterator of the LAST scenario listing it
@@ -139,7 +139,7 @@ IterCase(w1, w2) ==
                b |-> RDef(PreM("next", "users"), Use("pre", "b", "hdr"), "none", TRUE),
                c |-> RDef(NoPre, NoUse, "none", FALSE)],
      scens |-> IterScens(w1, w2),
-     rows |-> 3, idx |-> 7, shots |-> 2 * Len(RingOf(IterScens(w1, w2))), script |-> Script("ok", 0)]
+     gun |-> "http", tmpl |-> "text", special |-> FALSE, rows |-> 3, idx |-> 7, shots |-> 2 * Len(RingOf(IterScens(w1, w2))), script |-> Script("ok", 0)]
 IterInit == \E w1 \in {1, 2, 3}, w2 \in {1, 2} : st = InitSt(IterCase(w1, w2))
 
 \* several instances: [next] under every interleaving (design level, NInst = 2) and on the real engine (M1, 4 instances)
@@ -149,7 +149,7 @@ NextCase(rows, shots) ==
                b |-> RDef(PreM("next", "items"), Use("pre", "b", "hdr"), "none", FALSE),
                c |-> RDef(PreM("next", "users"), Use("pre", "c", "body"), "none", FALSE)],
      scens |-> << [name |-> "s1", weight |-> 1, items |-> <<ReqItem("a", 2, 0), ReqItem("b", 1, 0), ReqItem("c", 1, 0)>>] >>,
-     rows |-> rows, idx |-> 7, shots |-> shots, script |-> Script("ok", 0)]
+     gun |-> "http", tmpl |-> "text", special |-> FALSE, rows |-> rows, idx |-> 7, shots |-> shots, script |-> Script("ok", 0)]
 SmallNextCase(shots) == [NextCase(2, shots) EXCEPT !.id = 20300000 + shots,
                             !.scens = << [name |-> "s1", weight |-> 1, items |-> <<ReqItem("a", 1, 0), ReqItem("c", 2, 0)>>] >>]
 NextInit == \E n \in 1..3 : st = InitSt(SmallNextCase(n))
@@ -166,18 +166,86 @@ FirstCase(rows) ==
                b |-> RDef(PreM("next", "items"), Use("pre", "b", "hdr"), "none", FALSE),
                c |-> RDef(NoPre, NoUse, "none", FALSE)],
      scens |-> << [name |-> "s1", weight |-> 1, items |-> <<ReqItem("a", 1, 0), ReqItem("b", 1, 0)>>] >>,
-     rows |-> rows, idx |-> 7, shots |-> 8, script |-> Script("ok", 0)]
+     gun |-> "http", tmpl |-> "text", special |-> FALSE, rows |-> rows, idx |-> 7, shots |-> 8, script |-> Script("ok", 0)]
 FirstInit == \E rows \in {2, 3, 5} : st = InitSt(FirstCase(rows))
 
-InitQuick == FlowInit(0) \/ RingInit \/ IterInit \/ NextBigInit \/ FirstInit
-InitThorough == FlowInit(1) \/ RingInit \/ IterInit \/ NextBigInit \/ FirstInit
+-----------------------------------------------------------------------------
+(* the html templater: the flows whose renderings can differ ("<no value>" is escaped), and a flow over data-source rows *)
+(* that end in "<" rendered into header and body, with both templaters                                                  *)
+HFlow == [a |-> RDef(PreM("next", "users"), Use("pre", "a", "hdr"), "json", FALSE),
+          b |-> RDef(NoPre, Use("ghost", "", "body"), "none", TRUE),
+          c |-> RDef(PreM("last", "users"), Use("pre", "c", "body"), "none", FALSE)]
+TmplScripts == {Script("ok", 0), Script("status", 2), Script("transport", 1)}
+OneShape(n) == [p \in 1..n |-> Shape(1, 0, 0)]
+TmplCase(f, nsi, sc, tmpl, special) ==
+    [FlowCase(f, nsi, OneShape(Len(NameSeqs[nsi])), sc) EXCEPT
+        !.id = 21000000 + (((IF special THEN 10 ELSE f) * 8 + nsi) * 2 + (IF tmpl = "html" THEN 1 ELSE 0)) * 67 + ScriptCode(sc),
+        !.fam = "tmpl", !.tmpl = tmpl, !.special = special,
+        !.reqs = IF special THEN HFlow ELSE Flows[f]]
+TmplInit == \/ \E f \in {2, 3, 6, 7, 8, 9}, nsi \in {3, 5} : \E sc \in TmplScripts : st = InitSt(TmplCase(f, nsi, sc, "html", FALSE))
+            \/ \E nsi \in {3, 5, 7}, tmpl \in {"text", "html"} : \E sc \in TmplScripts : st = InitSt(TmplCase(1, nsi, sc, tmpl, TRUE))
+
+-----------------------------------------------------------------------------
+(* the grpc/scenario gun: the same flow semantics (order, multiplicity, pauses, variable flow, abort) on calls *)
+GDef(pre, use, as) == RDef(pre, use, "grpc", as)
+GFlows == <<
+  \* 1 plain calls, assertions on a and c
+  [a |-> GDef(NoPre, NoUse, TRUE), b |-> GDef(NoPre, NoUse, FALSE), c |-> GDef(NoPre, NoUse, TRUE)],
+  \* 2 data source [next] / [last] / [7] rendered into the payload and the metadata
+  [a |-> GDef(PreM("next", "users"), Use("pre", "a", "payload"), TRUE),
+   b |-> GDef(PreM("last", "users"), Use("pre", "b", "meta"), FALSE),
+   c |-> GDef(PreM("idx", "items"), Use("pre", "c", "payload"), FALSE)],
+  \* 3 the reply of a call flows into the next calls: a -> b (payload) -> c (metadata); b asserts
+  [a |-> GDef(NoPre, NoUse, FALSE),
+   b |-> GDef(NoPre, Use("post", "a", "payload"), TRUE),
+   c |-> GDef(NoPre, Use("post", "b", "meta"), FALSE)],
+  \* 4 through preprocessors: a's reply -> b.pre -> b's payload; b's reply -> c.pre -> c's metadata
+  [a |-> GDef(NoPre, NoUse, FALSE),
+   b |-> GDef(PreM("from", "a"), Use("pre", "b", "payload"), FALSE),
+   c |-> GDef(PreM("from", "b"), Use("pre", "c", "meta"), TRUE)],
+  \* 5 a variable that is not there, a template execution error, a preprocessor error
+  [a |-> GDef(NoPre, Use("ghost", "", "meta"), FALSE),
+   b |-> GDef(NoPre, Use("bad", "", "payload"), FALSE),
+   c |-> GDef(PreM("missing", ""), NoUse, FALSE)]
+>>
+GShapes == {Shape(1, 0, 0), Shape(2, 3, 4)}
+GScripts(steps, lvl) == {Script("ok", 0)} \cup {Script("status", k) : k \in 1..(IF lvl = 0 /\ steps > 2 THEN 3 ELSE steps + 1)}
+GrpcCase(f, nsi, shs, sc) ==
+    [FlowCase(f, nsi, shs, sc) EXCEPT
+        !.id = 22000000 + ((f * 8 + nsi) * 2400 + StructCode(shs)) * 67 + ScriptCode(sc),
+        !.fam = "grpc", !.gun = "grpc", !.reqs = GFlows[f]]
+GrpcInit(lvl) ==
+    \E f \in 1..Len(GFlows), nsi \in 1..Len(NameSeqs) :
+      \E shs \in (IF lvl = 0 THEN [1..Len(NameSeqs[nsi]) -> GShapes] ELSE ShapeSeqs(Len(NameSeqs[nsi]), 0)) :
+        \E sc \in GScripts(StepsOf(shs), lvl) :
+          st = InitSt(GrpcCase(f, nsi, shs, sc))
+
+\* several instances AND failures: every shot draws its own row (16 rows, 8 shots); a's request is answered 418 when the row
+\* it renders has parity `at`, a asserts -> that shot ends; b renders a's row, so the target's log shows per row whether the
+\* shot went on.  Compared as multisets (order free).
+MFailCase(par) ==
+    [id |-> 20500000 + par, fam |-> "mfail",
+     reqs |-> [a |-> RDef(PreM("next", "users"), Use("pre", "a", "uri"), "none", TRUE),
+               b |-> RDef(NoPre, Use("pre", "a", "hdr"), "none", FALSE),
+               c |-> RDef(NoPre, NoUse, "none", FALSE)],
+     scens |-> << [name |-> "s1", weight |-> 1, items |-> <<ReqItem("a", 1, 0), ReqItem("b", 1, 0)>>] >>,
+     gun |-> "http", tmpl |-> "text", special |-> FALSE, rows |-> 16, idx |-> 7, shots |-> 8, script |-> Script("rowmod", par)]
+MFailInit == \E par \in {0, 1} : st = InitSt(MFailCase(par))
+
+GrpcSmallInit == \E f \in {1, 3}, nsi \in {2, 5} : \E sc \in GScripts(Len(NameSeqs[nsi]), 1) :
+                    st = InitSt(GrpcCase(f, nsi, OneShape(Len(NameSeqs[nsi])), sc))
+InitQuick == FlowInit(0) \/ RingInit \/ IterInit \/ NextBigInit \/ FirstInit \/ TmplInit \/ GrpcInit(0) \/ MFailInit
+InitThorough == FlowInit(1) \/ RingInit \/ IterInit \/ NextBigInit \/ FirstInit \/ TmplInit \/ GrpcInit(1) \/ MFailInit
 InitFull  == FlowInit(2) \/ RingInit \/ IterInit
 InitSmall == (\E nsi \in {2, 6} : \E shs \in [1..Len(NameSeqs[nsi]) -> {Shape(1, 0, 0), Shape(2, 3, 4)}] :
                 \E f \in {1, 3} : \E sc \in ScriptsFor(StepsOf(shs)) : st = InitSt(FlowCase(f, nsi, shs, sc)))
              \/ (\E ws \in [1..2 -> {1, 2, 4}] : st = InitSt(RingCase(ws)))
 
 \* M2: export the selected cases for the replay through the real code
-Selected(c) == c.fam # "flow" \/ (c.id % Mod) = (Sd % Mod)
+GMod == IF "VERIF_GMOD" \in DOMAIN IOEnv THEN atoi(IOEnv.VERIF_GMOD) ELSE 1
+Selected(c) == CASE c.fam = "flow" -> (c.id % Mod) = (Sd % Mod)
+                 [] c.fam = "grpc" -> (c.id % GMod) = (Sd % GMod)
+                 [] OTHER -> TRUE
 Export == (Done(st) /\ Selected(st.cs)) => PrintT(<<"VERIF", ToJson(st.cs)>>)
 
 =============================================================================
